@@ -350,8 +350,10 @@ def sha(x):
 
 # ------------------------------------------------------------------ evidence
 def write_evidence(pid, data):
-    os.makedirs(os.path.join(VERIF, "evidence"), exist_ok=True)
-    path = os.path.join(VERIF, "evidence", pid + ".json")
+    # (runs against a seeded change write their evidence elsewhere: VERIF_SCRATCH_EVIDENCE, set by the seed scripts only)
+    d = os.environ.get("VERIF_SCRATCH_EVIDENCE") or os.path.join(VERIF, "evidence")
+    os.makedirs(d, exist_ok=True)
+    path = os.path.join(d, pid + ".json")
     with open(path, "w") as f:
         json.dump(data, f, indent=1, sort_keys=True)
     return path
